@@ -146,13 +146,14 @@ OPTIMISERS = ('modularity_finetune_und', 'modularity_finetune_dir', 'modularity_
               'modularity_louvain_dir', 'modularity_louvain_und_sign', 'community_louvain')
 
 WEAVE = {
-    'community_louvain': dict(assign='Mb[u] = mb + 1', code='__mv(Mb, u, mb, max_dq)', level='while q - q0 > 1e-10'),
+    'community_louvain': dict(assign='Mb[u] = mb + 1', code='__mv(Mb, u, mb, max_dq)', level='while q - q0 > 1e-10',
+                              comp='None if first_iteration else ci'),
     'modularity_finetune_und': dict(assign='ci[u] = mb + 1', code='__mv(ci, u, mb, max_dq)'),
     'modularity_finetune_dir': dict(assign='ci[u] = mb + 1', code='__mv(ci, u, mb, max_dq)'),
     'modularity_finetune_und_sign': dict(assign='ci[u] = mb + 1', code='__mv(ci, u, mb, max_dq)'),
-    'modularity_louvain_und': dict(assign='m[i] = j + 1', code='__mv(m, i, j, max_dq)', level='while True'),
-    'modularity_louvain_dir': dict(assign='m[u] = mb + 1', code='__mv(m, u, mb, max_dq)', level='while True'),
-    'modularity_louvain_und_sign': dict(assign='m[u] = mb + 1', code='__mv(m, u, mb, max_dQ)', level='while q[h] - q[h - 1] > 1e-10'),
+    'modularity_louvain_und': dict(assign='m[i] = j + 1', code='__mv(m, i, j, max_dq)', level='while True', comp='ci[h]'),
+    'modularity_louvain_dir': dict(assign='m[u] = mb + 1', code='__mv(m, u, mb, max_dq)', level='while True', comp='ci[h]'),
+    'modularity_louvain_und_sign': dict(assign='m[u] = mb + 1', code='__mv(m, u, mb, max_dQ)', level='while q[h] - q[h - 1] > 1e-10', comp='ci[h]'),
 }
 
 
@@ -469,22 +470,30 @@ class MoveMon:
         self.checked = 0
         self.fails = []
         self._last = None
+        self.comp = None             # level >= 2: for every original node the (1-based) super-node it was merged into
 
     def bad(self, clause, detail):
         if not any(c == clause for c, _ in self.fails):
             self.fails.append((clause, detail))
 
-    def lvl(self):
+    def lvl(self, comp=None):
+        # head of a hierarchy level; comp = the routine's composed labels of the original nodes at the end of the previous level
         self.level += 1
+        self.comp = None if comp is None else [int(v) for v in comp]
+        self._last = None
 
     def mv(self, labels, u, mb, gain):
         self.moves += 1
-        if self.level > 1:           # from level 2 on the working matrix is the aggregated one
-            return
-        before = [int(v) for v in labels]
+        sup = [int(v) for v in labels]
         u, mb = int(u), int(mb)
-        after = list(before)
-        after[u] = mb + 1
+        sup2 = list(sup)
+        sup2[u] = mb + 1
+        if self.comp is None:        # first level: the working matrix is the input matrix
+            before, after, deep = sup, sup2, ''
+        else:                        # aggregation lemma: Q of the aggregated network = Q of the input network with composed labels
+            before = [sup[c - 1] for c in self.comp]
+            after = [sup2[c - 1] for c in self.comp]
+            deep = '/level>=2' if self.level > 1 else ''
         if self._last is not None and self._last[0] == before:
             qb = self._last[1]
         else:
@@ -495,11 +504,11 @@ class MoveMon:
         claimed = float(gain) * self.scale
         exact = qa - qb
         if not close(claimed, exact, GAIN_RTOL, GAIN_ATOL):
-            self.bad('MOVE-claimed-gain-equals-exact-dQ', 'move %d: node %d from module %d to %d with labels %r: claimed gain %r, exact change of Q %r'
-                     % (self.moves, u, before[u], mb + 1, before, claimed, exact))
+            self.bad('MOVE-claimed-gain-equals-exact-dQ' + deep, 'move %d (level %d): (super-)node %d from module %d to %d, labels of the original nodes before the move %r: claimed gain %r, exact change of Q %r'
+                     % (self.moves, max(self.level, 1), u, sup[u], mb + 1, before, claimed, exact))
         if not exact > 0:
-            self.bad('MOVE-accepted-move-raises-Q', 'move %d: node %d from module %d to %d with labels %r was accepted (claimed %r) but changes Q by %r'
-                     % (self.moves, u, before[u], mb + 1, before, claimed, exact))
+            self.bad('MOVE-accepted-move-raises-Q' + deep, 'move %d (level %d): (super-)node %d from module %d to %d, labels of the original nodes before the move %r: accepted (claimed %r) but changes Q by %r'
+                     % (self.moves, max(self.level, 1), u, sup[u], mb + 1, before, claimed, exact))
 
 
 def _hook_mv(labels, u, mb, gain):
@@ -508,10 +517,10 @@ def _hook_mv(labels, u, mb, gain):
         m.mv(labels, u, mb, gain)
 
 
-def _hook_lvl():
+def _hook_lvl(comp=None):
     m = _STATE['mon']
     if m is not None:
-        m.lvl()
+        m.lvl(comp)
 
 
 def woven(name):
@@ -519,7 +528,7 @@ def woven(name):
         spec = WEAVE[name]
         ins = [{'where': 'before', 'key': spec['assign'], 'code': spec['code']}]
         if spec.get('level'):
-            ins.append({'where': 'loop_head', 'key': spec['level'], 'code': '__lvl()'})
+            ins.append({'where': 'loop_head', 'key': spec['level'], 'code': '__lvl(%s)' % spec['comp']})
         _WOVEN[name] = WV.weave(MOD, name, inserts=ins, hooks={'__mv': _hook_mv, '__lvl': _hook_lvl})
     return _WOVEN[name]
 
